@@ -1,6 +1,7 @@
 (* C10 - WBS.clone / WBS.subtree return a faithful, independent copy.
-   Statement file: every theorem is closed by [exact] of a lemma proved in Graph/CloneProofs.v and
-   followed by Print Assumptions.  The theorems hold for every well-formed state s (WF: the
+   Statement file: every theorem is closed by [exact] of a lemma proved in Graph/CloneProofs.v (faithfulness),
+   Graph/CloneWF.v (well-formedness after the call), Graph/CloneIndep.v (independence), Graph/CloneOracle.v
+   (oracle), Graph/CloneIds.v (the root-id invariant) and followed by Print Assumptions.  The theorems hold for every well-formed state s (WF: the
    invariant of the task graph, evaluated on every generated case), every WBS w of it and every
    selection of tasks of w (sel_ok, evaluated on every generated case; for clone() the selection
    is the list of root tasks, C10_clone).  Vocabulary (Graph/Clone.v):
@@ -10,7 +11,9 @@
      pos_map mem new x              the task of the new WBS at the position x has in mem;
      sp_wbs / sp_bij / sp_fields / sp_tree / sp_links / sp_outside / sp_source: the clauses of
      the declarative statement CloneSpec. *)
-From PJ Require Import Base.Prelude Graph.Model Graph.Invariant Graph.Clone Graph.CloneCheck Graph.CloneProofs.
+From PJ Require Import Base.Prelude Graph.Model Graph.Invariant Graph.Clone Graph.CloneCheck Graph.CloneProofs
+                       Graph.CloneWF Graph.CloneIndep Graph.CloneOracle Graph.CloneIds.
+From PJ Require Graph.StepProofs.
 Local Open Scope nat_scope.
 
 (* The tasks of the new WBS (WBS.tasks order) are new objects and correspond position by position
@@ -90,14 +93,96 @@ Theorem C10_oracle_sound : forall s w roots mem s' w' new,
   clone_spec_b s w roots mem s' w' new = true -> CloneSpec s w roots mem s' w' new.
 Proof. exact clone_spec_b_sound. Qed.
 
-(* Open statements (kept in full; decided on every run by the differential check, not proved):
-   the result is well formed again; a later operation whose named objects all lie on one side
-   changes no object of the other side. *)
+(* ... and complete: the boolean is true exactly when the statement holds *)
+Theorem C10_oracle_meaning : forall s w roots mem s' w' new,
+  clone_spec_b s w roots mem s' w' new = true <-> CloneSpec s w roots mem s' w' new.
+Proof. exact clone_spec_b_meaning. Qed.
+
+(* ---- the state after the call is well formed again ----
+   The statement with WF alone is FALSE of the model: WF (Graph/Invariant.v) does not say that a hidden WBS root
+   carries the id EMPTY_ID (sys.maxsize); the new hidden root does, so cloning a WF state whose source root has
+   another id and one of whose members has the id EMPTY_ID yields two tasks of one tree with the same id
+   (C10_wf_refuted; witness CloneWF.wf_cex).  No state of the implementation is like that: the hidden root is
+   created with that id, ids never change, and a task with that id is refused by _has_id_intersection.  With the
+   missing clause as the named predicate hid_ids (boolean hid_ids_b) the full invariant is proved, and hid_ids
+   is itself preserved by the call. *)
 Definition C10_wf_statement : Prop :=
   forall s w sel, WF s -> sel_ok s w sel -> WF (fst (clone_sel s w sel)).
 
-Definition C10_indep_statement : Prop :=
-  forall s w sel o, WF s -> sel_ok s w sel ->
+Theorem C10_wf_refuted : ~ C10_wf_statement.
+Proof. exact clone_wf_unconditional_refuted. Qed.
+
+Theorem C10_wf : forall s w sel, WF s -> hid_ids s -> sel_ok s w sel ->
+  WF (fst (clone_sel s w sel)) /\ hid_ids (fst (clone_sel s w sel)).
+Proof. exact clone_sel_WF. Qed.
+
+(* only the id of the SOURCE root is needed *)
+Theorem C10_wf_core : forall s w sel, WF s -> sel_ok s w sel ->
+  tid (get (hp s) (wroot s w)) = EMPTY_ID -> WF (fst (clone_sel s w sel)).
+Proof. exact clone_sel_WF_core. Qed.
+
+(* with WF alone: every conjunct except the uniqueness of ids inside a tree *)
+Theorem C10_wf_partial : forall s w sel, WF s -> sel_ok s w sel ->
+  let s' := fst (clone_sel s w sel) in
+  I_fin s' /\ I_pc s' /\ I_acy s' /\ I_sym s' /\ I_dag s' /\ I_sep s' /\ I_hid s' /\ I_own s'.
+Proof. exact clone_sel_WF_but_ids. Qed.
+
+Theorem C10_hid_ids_b : forall s, hid_ids_b s = true <-> hid_ids s.
+Proof. exact hid_ids_b_spec. Qed.
+
+(* hid_ids is an invariant of the whole model: no operation writes the id of an existing object, only WBS() extends
+   the table of WBS roots (with a root whose id is EMPTY_ID); so it holds, like WF, in every state reached from the
+   empty one through public calls, and there clone / subtree needs no hypothesis beyond sel_ok *)
+Theorem C10_hid_ids_step : forall s o, I_fin s -> hid_ids s -> hid_ids (fst (step s o)).
+Proof. exact step_keeps_hid_ids. Qed.
+
+Theorem C10_hid_ids_reach : forall ops, StepProofs.pub_run init ops -> hid_ids (run init ops).
+Proof. exact reach_hid_ids. Qed.
+
+Theorem C10_wf_reach : forall ops w sel,
+  StepProofs.pub_run init ops -> sel_ok (run init ops) w sel ->
+  WF (fst (clone_sel (run init ops) w sel)) /\ hid_ids (fst (clone_sel (run init ops) w sel)).
+Proof. exact clone_wf_reach. Qed.
+
+(* ---- independence ----
+   No dependency link joins a task of the source WBS and a task of the new WBS. *)
+Theorem C10_no_cross : forall s w sel, WF s -> sel_ok s w sel ->
+  let s' := fst (clone_sel s w sel) in let w' := snd (clone_sel s w sel) in
+  forall x y, own (get (hp s') x) = Some w -> own (get (hp s') y) = Some w' ->
+    ~ In y (preds (get (hp s') x)) /\ ~ In y (succs (get (hp s') x)) /\
+    ~ In x (preds (get (hp s') y)) /\ ~ In x (succs (get (hp s') y)).
+Proof. exact clone_no_cross. Qed.
+
+(* "Later changes to either side do not show on the other": for EVERY operation kind of the mutation API
+   (step: the three setters, the list facades, the operators, the loops, the constructor with relations, ...),
+   accepted or raising, if every object the call names is a task of one side (tasks of that WBS or its hidden
+   root as the owner of wbs.roots) - and a WBS named by wbs.remove / remove_all is that side's - then every task of
+   the other side keeps ALL its fields (the whole record).  pub_args: the call names objects a Python caller can
+   hold (evaluated by the harness on every call).  Tasks outside both WBSs are shared by design and excluded. *)
+Theorem C10_indep : forall s w sel o, WF s -> hid_ids s -> sel_ok s w sel ->
+  let s1 := fst (clone_sel s w sel) in let w1 := snd (clone_sel s w sel) in
+  forall wa wb, (wa = w /\ wb = w1) \/ (wa = w1 /\ wb = w) ->
+    incl (named o) (side s1 wa) -> incl (op_wbs o) [wa] -> pub_args s1 o = true ->
+    forall y, In y (side s1 wb) -> get (hp (fst (step s1 o))) y = get (hp s1) y.
+Proof. exact c10_indep. Qed.
+
+(* the same for any two WBSs of a well-formed state that no dependency link joins *)
+Theorem C10_indep_two_wbs : forall s wa wb o,
+  WF s -> wa < length (wroots s) -> wb < length (wroots s) -> wa <> wb -> no_cross s wa wb ->
+  incl (named o) (side s wa) -> incl (op_wbs o) [wa] -> pub_args s o = true ->
+  forall y, In y (side s wb) -> get (hp (fst (step s o))) y = get (hp s) y.
+Proof. exact indep_two_wbs. Qed.
+
+(* and for any set B of objects that is a union of whole trees: a call that names only objects outside B which
+   are not linked with B leaves B untouched *)
+Theorem C10_frame_generic : forall (B : obj -> Prop) s o,
+  WF s -> closedB B s -> clear B s o -> pub_args s o = true -> unchangedB B s (fst (step s o)).
+Proof. exact frameB_step. Qed.
+
+(* The variant that asks only that the named objects exist (args_ok instead of pub_args: calls no Python caller can
+   make, e.g. a hidden root as a dependency end) is not proved; kept in full. *)
+Definition C10_indep_anyargs_statement : Prop :=
+  forall s w sel o, WF s -> hid_ids s -> sel_ok s w sel ->
     let s1 := fst (clone_sel s w sel) in let w1 := snd (clone_sel s w sel) in
     forall wa wb, (wa = w /\ wb = w1) \/ (wa = w1 /\ wb = w) ->
       incl (named o) (side s1 wa) -> incl (op_wbs o) [wa] -> args_ok s1 o = true ->
@@ -116,7 +201,7 @@ Example C10_example :
                  mkT 4 (Some 0) [] [2] [] (Some 0) false None [4%Z] None;
                  mkT 1 None [] [] [2] None false None [5%Z] None ] [0] in
   let sel := [2; 1; 2] in
-  wf_b s = true /\ sel_ok_b s 0 sel = true /\ sel_roots (hp s) sel = [1] /\ members (hp s) sel = Some [1; 2; 3] /\
+  wf_b s = true /\ hid_ids_b s = true /\ sel_ok_b s 0 sel = true /\ sel_roots (hp s) sel = [1] /\ members (hp s) sel = Some [1; 2; 3] /\
   clone_sel s 0 sel =
     (mkS [ mkT EMPTY_ID None [1; 4] [] [] (Some 0) true None [] None;
            mkT 1 (Some 0) [2] [] [] (Some 0) false (Some 3%Z) [1%Z] None;
@@ -129,7 +214,14 @@ Example C10_example :
            mkT 2 (Some 7) [9] [5] [] (Some 1) false None [2%Z] (Some 8%Z);
            mkT 3 (Some 8) [] [] [] (Some 1) false None [3%Z] None ] [0; 6], 1) /\
   clone_spec_b s 0 [1] [1; 2; 3] (fst (clone_sel s 0 sel)) 1 [7; 8; 9] = true /\
-  wf_b (fst (clone_sel s 0 sel)) = true.
+  wf_b (fst (clone_sel s 0 sel)) = true /\ hid_ids_b (fst (clone_sel s 0 sel)) = true /\
+  (* independence is not vacuous: e.parent = r on the copy (objects 9 and 7) names tasks of the new WBS only, is a
+     public call, is accepted and changes the copy; the same on the source side (objects 3 and 1) *)
+  (let s1 := fst (clone_sel s 0 sel) in
+   let o1 := SetParent 9 (Some 7) in let o0 := SetParent 3 (Some 1) in
+   forallb (fun x => memn x (side s1 1)) (named o1) = true /\ pub_args s1 o1 = true /\ snd (step s1 o1) = OK /\
+   kids (get (hp (fst (step s1 o1))) 7) = [8; 9] /\
+   forallb (fun x => memn x (side s1 0)) (named o0) = true /\ pub_args s1 o0 = true /\ snd (step s1 o0) = OK).
 Proof. vm_compute. repeat split; reflexivity. Qed.
 
 Print Assumptions C10_faithful.
@@ -140,4 +232,17 @@ Print Assumptions C10_subtree.
 Print Assumptions C10_spec.
 Print Assumptions C10_defined.
 Print Assumptions C10_oracle_sound.
+Print Assumptions C10_oracle_meaning.
+Print Assumptions C10_wf_refuted.
+Print Assumptions C10_wf.
+Print Assumptions C10_wf_core.
+Print Assumptions C10_wf_partial.
+Print Assumptions C10_hid_ids_b.
+Print Assumptions C10_hid_ids_step.
+Print Assumptions C10_hid_ids_reach.
+Print Assumptions C10_wf_reach.
+Print Assumptions C10_no_cross.
+Print Assumptions C10_indep.
+Print Assumptions C10_indep_two_wbs.
+Print Assumptions C10_frame_generic.
 Print Assumptions C10_example.
